@@ -28,6 +28,10 @@ func init() {
 						ops = append(ops, Op{Kind: "cache", Table: ts.Name})
 						continue
 					}
+					if g.R.Chance(0.25) {
+						ops = append(ops, g.batchOf(ts, 6, []string{"get", "put", "inc"}))
+						continue
+					}
 					ops = append(ops, g.SingleOp(ts.Name, g.KeyNear(ts.Splits, 3), kinds))
 				}
 				p.Tasks = append(p.Tasks, Task{Ops: ops})
